@@ -90,6 +90,22 @@ def Opts.userAddition (o : Opts) : Option Bool :=
 
 variable {N V T : Type} [DecidableEq N] [DecidableEq V]
 
+/-! ### where a parameter's `Param(...)` comes from (field.py:1100-1108, 1313-1325) -/
+
+/-- one item of `Annotated[T, m₁, m₂, …].__metadata__`: a utype Field/Param (with its settings `S`) or anything else
+(a doc string, a unit marker, …); nested `Annotated` aliases are flattened by `typing` into one such list -/
+inductive Meta (S : Type) where
+  | other
+  | param (s : S)
+  deriving Repr
+
+/-- `ParserField.generate`: the FIRST metadata item that is a Field is the parameter's field, whatever precedes it
+(`process_annotate_meta` answers None for everything else and the loop goes on) -/
+def findParam {S : Type} : List (Meta S) → Option S
+  | [] => none
+  | .param s :: _ => some s
+  | .other :: rest => findParam rest
+
 /-! ### Python's binding (the specification's core, also what `func(*args, **kwargs)` does at func.py:951) -/
 
 /-- positional slots: arguments fill them left to right; a slot already filled must not be named again;
